@@ -342,9 +342,9 @@ class C20(Prop):
                    'open finding F-20c: float schedule dates compared raw with Decimal event dates; divergent pairs with >= 1 such pseudo-tie '
                    'before the first differing record are reported as KNOWN-FINDING']
 
-    REGIONS = {'quick': [('core', 60), ('renege', 40), ('sched', 40), ('schedpre', 14), ('slotted', 14), ('preempt', 14), ('all', 24)],
+    REGIONS = {'quick': [('core', 60), ('renege', 40), ('sched', 40), ('schedpre', 14), ('slotted', 14), ('preempt', 14), ('all', 24), ('dyn', 14), ('dyn_preempt', 28)],
                'thorough': [('core', 1500), ('renege', 1000), ('sched', 1000), ('schedpre', 350), ('slotted', 350), ('preempt', 350),
-                            ('all', 600), ('block', 300), ('dyn', 200)]}
+                            ('all', 600), ('block', 300), ('dyn', 200), ('dyn_preempt', 300)]}
 
     def jobs(self, tier, seed):
         js = []
